@@ -72,6 +72,35 @@ func sinkKind(info *types.Info, call *ast.CallExpr) string {
 	return ""
 }
 
+// isSpongeType: a concrete sponge / hash state type (value, not pointer) of the standard or x/crypto libraries.
+func isSpongeType(t types.Type) bool {
+	n, ok := types.Unalias(t).(*types.Named)
+	if !ok || n.Obj().Pkg() == nil {
+		return false
+	}
+	if _, isStruct := n.Underlying().(*types.Struct); !isStruct {
+		return false
+	}
+	p := n.Obj().Pkg().Path()
+	return p == "crypto/sha3" || strings.HasPrefix(p, "golang.org/x/crypto/sha3") || strings.HasPrefix(p, "golang.org/x/crypto/blake2")
+}
+
+// isStoreTarget: the expression is the left-hand side of an assignment (`*p = v` overwrites, it does not copy).
+func (u *Unit) isStoreTarget(e ast.Expr) bool {
+	res := false
+	ast.Inspect(u.Body, func(n ast.Node) bool {
+		if as, ok := n.(*ast.AssignStmt); ok {
+			for _, l := range as.Lhs {
+				if ast.Unparen(l) == e {
+					res = true
+				}
+			}
+		}
+		return !res
+	})
+	return res
+}
+
 // loopContext: shapes of the enclosing range/for expressions of n (outermost first).
 func (u *Unit) loopContext(n ast.Node) []string {
 	var out []string
@@ -103,12 +132,45 @@ func (u *Unit) SinkOps() []SinkOp {
 		if lit, ok := n.(*ast.FuncLit); ok && lit != u.Lit {
 			return false
 		}
+		// a value copy of a sponge state (`c := *h`, `new(*shake)`) forks it: what was absorbed before the copy is
+		// in the fork, what is absorbed afterwards is not
+		if st, ok := n.(*ast.StarExpr); ok {
+			if tv, has := u.Info.Types[st]; has && tv.IsValue() && isSpongeType(tv.Type) && !u.isStoreTarget(st) {
+				t := "H.Fork(" + u.argShape(st.X, st, 0) + "→)"
+				if lc := u.loopContext(st); len(lc) > 0 {
+					t += " @" + strings.Join(lc, " / ")
+				}
+				if cc := u.condContext(st); cc != "" {
+					t += " ?" + cc
+				}
+				out = append(out, SinkOp{Pos: st, Text: t})
+			}
+			return true
+		}
 		call, ok := n.(*ast.CallExpr)
 		if !ok {
 			return true
 		}
 		k := sinkKind(u.Info, call)
 		if k == "" {
+			// io.ReadFull(sponge, buf) squeezes the sponge
+			if f := typeutil.StaticCallee(u.Info, call); f != nil && f.Pkg() != nil && f.Pkg().Path() == "io" && f.Name() == "ReadFull" && len(call.Args) == 2 {
+				if t := u.Info.TypeOf(call.Args[0]); t != nil {
+					if p, ok := t.(*types.Pointer); ok {
+						t = p.Elem()
+					}
+					if isSpongeType(t) {
+						txt := "H.Read(" + u.argShape(call.Args[0], call, 0) + "→" + u.argShape(call.Args[1], call, 0) + ")"
+						if lc := u.loopContext(call); len(lc) > 0 {
+							txt += " @" + strings.Join(lc, " / ")
+						}
+						if cc := u.condContext(call); cc != "" {
+							txt += " ?" + cc
+						}
+						out = append(out, SinkOp{Pos: call, Text: txt})
+					}
+				}
+			}
 			return true
 		}
 		var args []string
